@@ -432,7 +432,7 @@ BUILTIN_NAMES = {
     "str", "int", "float", "bool", "bytes", "min", "max", "any", "all", "sum", "sorted", "filter", "map",
     "callable", "dir", "print", "super", "Exception", "ValueError", "TypeError", "KeyError", "IndexError",
     "AssertionError", "NotImplementedError", "enumerate", "zip", "range", "iter", "next", "repr", "type",
-    "object", "id", "abs", "round", "frozenset", "reversed", "BaseException", "AttributeError", "cast",
+    "object", "id", "abs", "round", "frozenset", "reversed", "BaseException", "AttributeError", "cast", "vars", "divmod", "format",
 }
 
 
